@@ -1,15 +1,50 @@
-/- Model driver for the Black–Scholes kernels: the Float instantiation of the GENERATED code. -/
+/- Model driver for the Black–Scholes family: the Float instantiation of the GENERATED code (`Gen/BSF.lean`)
+   plus the hand-modelled class glue (rate extraction from discount factors, time floor, num_options).
+   One op per line: `<op> <float bits>* <int>*`. -/
 import FinVerif.Driver.Util
 import FinVerif.Gen.BSF
 open FinVerif FinVerif.Driver FinVerif.Gen.BSF
 
-def seven (f : Float → Float → Float → Float → Float → Float → Int → Except PyErr Float)
+abbrev R := Except PyErr Float
+
+/-- split the arguments into `nf` floats (bit patterns) followed by `ni` ints -/
+def parse (nf ni : Nat) (args : List String) : Option (List Float × List Int) :=
+  if args.length ≠ nf + ni then none else
+  match floats? (args.take nf), ints? (args.drop nf) with
+  | some fs, some is => some (fs, is)
+  | _, _ => none
+
+def seven (f : Float → Float → Float → Float → Float → Float → Int → R) (args : List String) : String :=
+  match parse 6 1 args with
+  | some ([s, t, k, r, q, v], [ty]) => showExcept showFloat (f s t k r q v ty)
+  | _ => "bad-op"
+
+def six (f : Float → Float → Float → Float → Float → Int → R) (args : List String) : String :=
+  match parse 5 1 args with
+  | some ([a, b, c, d, e], [ty]) => showExcept showFloat (f a b c d e ty)
+  | _ => "bad-op"
+
+/-- `Black.value/delta/gamma/theta/vega(forward, strike, t, df, type)`: `r = -log(df)/t`, then the helper. -/
+def blackGlue (f : Float → Float → Float → Float → Float → Int → R) (args : List String) : String :=
+  match parse 5 1 args with
+  | some ([fwd, k, t, df, v], [ty]) =>
+    let r := (-(Float.log df)) / t
+    showExcept showFloat (f fwd t k r v ty)
+  | _ => "bad-op"
+
+/-- `EquityVanillaOption.<greek>(value_dt, s, discount_curve, dividend_curve, model)`:
+    `t = max((expiry - value)/365, 1e-10)`, `r = -log(df)/t`, `q = -log(dq)/t`, then `bs_<greek>`;
+    `value` is multiplied by `num_options` (the Greeks are not, as coded). -/
+def vanillaGlue (f : Float → Float → Float → Float → Float → Float → Int → R) (scaled : Bool)
     (args : List String) : String :=
-  match args with
-  | [s, t, k, r, q, v, ty] =>
-    match floats? [s, t, k, r, q, v], int? ty with
-    | some [s, t, k, r, q, v], some ty => showExcept showFloat (f s t k r q v ty)
-    | _, _ => "bad-op"
+  match parse 7 1 args with
+  | some ([s, traw, df, dq, k, v, nopt], [ty]) =>
+    let t := fmax traw 1e-10
+    let r := (-(Float.log df)) / t
+    let q := (-(Float.log dq)) / t
+    showExcept showFloat (do
+      let x ← f s t k r q v ty
+      pure (if scaled then x * nopt else x))
   | _ => "bad-op"
 
 def step (t : List String) : String :=
@@ -21,7 +56,43 @@ def step (t : List String) : String :=
   | "bs_theta" :: a => seven bs_theta a
   | "bs_rho" :: a => seven bs_rho a
   | "bs_vanna" :: a => seven (fun s t k r q v ty => .ok (bs_vanna s t k r q v ty)) a
+  | "bs_intrinsic" :: a =>
+    (match parse 5 1 a with
+     | some ([s, t, k, r, q], [ty]) => showFloat (bs_intrinsic s t k r q ty)
+     | _ => "bad-op")
+  | "black_value" :: a => six black_value a
+  | "black_delta" :: a => six black_delta a
+  | "black_gamma" :: a => six black_gamma a
+  | "black_vega" :: a => six black_vega a
+  | "black_theta" :: a => six black_theta a
+  | "Black.value" :: a => blackGlue black_value a
+  | "Black.delta" :: a => blackGlue black_delta a
+  | "Black.gamma" :: a => blackGlue black_gamma a
+  | "Black.vega" :: a => blackGlue black_vega a
+  | "Black.theta" :: a => blackGlue black_theta a
+  | "van.value" :: a => vanillaGlue bs_value true a
+  | "van.delta" :: a => vanillaGlue bs_delta false a
+  | "van.gamma" :: a => vanillaGlue (fun s t k r q v ty => .ok (bs_gamma s t k r q v ty)) false a
+  | "van.vega" :: a => vanillaGlue (fun s t k r q v ty => .ok (bs_vega s t k r q v ty)) false a
+  | "van.theta" :: a => vanillaGlue bs_theta false a
+  | "van.rho" :: a => vanillaGlue bs_rho false a
+  | "van.vanna" :: a => vanillaGlue (fun s t k r q v ty => .ok (bs_vanna s t k r q v ty)) false a
+  | "bshift" :: a =>
+    (match parse 6 1 a with
+     | some ([f, k, t, df, shift, vol], [ty]) => showExcept showFloat (black_shifted_value f k t df ty shift vol)
+     | _ => "bad-op")
+  | "bach" :: a =>
+    (match parse 5 1 a with
+     | some ([f, k, t, df, vol], [ty]) => showExcept showFloat (bachelier_value f k t df ty vol)
+     | _ => "bad-op")
+  | "digital" :: a =>
+    (match parse 6 2 a with
+     | some ([s, traw, df, dq, barrier, vol], [cp, dt]) =>
+       showExcept showFloat (digital_value s traw df dq barrier vol cp dt)
+     | _ => "bad-op")
   | ["N", x] => match float? x with | some x => showFloat (N x) | none => "bad-op"
+  | ["ncdf", x] => match float? x with | some x => showFloat (normCdf x) | none => "bad-op"
+  | ["npdf", x] => match float? x with | some x => showFloat (normPdf x) | none => "bad-op"
   | _ => "bad-op"
 
 def main : IO Unit := loop step
